@@ -212,7 +212,15 @@ FillFold(acc, fs, i) == IF i > Len(fs) THEN acc ELSE FillFold(FillOne(acc, fs[i]
 
 \* the broker clock never moves backwards: an earlier timestamp is refused before anything is
 \* touched (every portfolio and position clock is <= the broker clock, see ClocksOrdered)
-UpdateRefused(t) == t < now
+\* ... and a non-positive mid quote for a HELD asset (a negative price mark arriving through the broker's own
+\* clock update) is refused with the documented ValueError before anything is touched: no clock moves, no other
+\* holding is re-marked, no pending order is executed
+BadMark == \E pa \in HeldPairs : Mid(pa[2]) <= 0
+UpdateRefused(t) == t < now \/ BadMark
+\* environment assumption of the bounded instances that move quotes freely (MC_Broker conjoins it to Update): only
+\* assets that are held are ever quoted at a non-positive mid when the clock is updated (an order cannot be filled
+\* at a non-positive price: outside every property).  Session.tla, where 0 encodes "no price yet", does not use it.
+QuotesSane == \A a \in Assets : Mid(a) <= 0 => \E p \in PSet : a \in DOMAIN pos[p]
 
 (* The effect of update(t) GIVEN the marks and fills that happened: in the  *)
 (* model they are the expected ones; in a recorded trace the observed ones. *)
